@@ -373,6 +373,14 @@ def real_self(cls, **attrs):
     except Exception:
         pass
     inst = object.__new__(sub)
+    # attributes that the constructors of the class (and its bases) initialise with a literal constant (`self._x = None`,
+    # `= 0`, `= False`, `= {}` ...) are part of every instance's state: a change that adds such a slot must not break the harness
+    for k, v in _literal_init_attrs(cls).items():
+        if k not in attrs:
+            try:
+                object.__setattr__(inst, k, v)
+            except Exception:
+                pass
     for k, v in attrs.items():
         try:
             object.__setattr__(inst, k, v)
@@ -380,6 +388,38 @@ def real_self(cls, **attrs):
             # read-only property on the class: shadow it on the throw-away subclass
             setattr(sub, k, v)
     return inst
+
+
+def _literal_init_attrs(cls):
+    import ast
+    import inspect
+    import textwrap
+    out = {}
+    for c in reversed(cls.__mro__):
+        init = c.__dict__.get("__init__")
+        if init is None or not hasattr(init, "__code__"):
+            continue
+        try:
+            tree = ast.parse(textwrap.dedent(inspect.getsource(init)))
+        except Exception:
+            continue
+        fn = tree.body[0]
+        if not isinstance(fn, (ast.FunctionDef,)) or not fn.args.args:
+            continue
+        me = fn.args.args[0].arg
+        for node in ast.walk(fn):
+            targets, value = [], None
+            if isinstance(node, ast.Assign):
+                targets, value = node.targets, node.value
+            elif isinstance(node, ast.AnnAssign) and node.value is not None:
+                targets, value = [node.target], node.value
+            for t in targets:
+                if isinstance(t, ast.Attribute) and isinstance(t.value, ast.Name) and t.value.id == me:
+                    try:
+                        out[t.attr] = ast.literal_eval(value)
+                    except Exception:
+                        pass
+    return out
 
 
 def _is_harness_obj(obj):
